@@ -734,6 +734,52 @@ def main():
         all_subs += res["subs"]
         units_info.append(dict(src=res["src"], kind=res["kind"], wall_s=round(time.time() - tu, 1)))
 
+    # regression tier: committed records under regress/<prop>/ (inputs that exposed a defect which has been repaired, or a
+    # false alarm of the machinery that has been corrected) are replayed on every run, before the verdict
+    regress = dict(replayed=0, passed=0, known=0, skipped=0)
+    rgdir = os.path.join(VERIF, "regress", prop)
+    if os.path.isdir(rgdir) and not only:
+        pbt_units = []
+        for unit in spec["units"]:
+            if unit["kind"] == "pbt":
+                exe = build_unit(unit, unit.get("flavour", "num"))
+                pbt_units.append((exe, {x["sub"] for x in json.loads(run([exe, "list"]).stdout)}))
+        for name in sorted(os.listdir(rgdir)):
+            path = os.path.join(rgdir, name)
+            if name.endswith(".json"):
+                try:
+                    with open(path) as fh:
+                        sub = json.load(fh).get("sub")
+                except Exception:
+                    sub = None
+                exe = next((e for e, subs in pbt_units if sub in subs), None)
+                if exe is None:
+                    notes.append("regress/%s/%s: no unit owns sub-check %s" % (prop, name, sub))
+                    continue
+                rc, out = replay_pbt(exe, path, known_ids)
+                ok = (0, 2, 3)
+                if rc not in ok and any(replay_pbt(exe, path, known_ids)[0] in ok for _ in range(2)):
+                    rc = 0
+            else:
+                unit = next((u for u in spec["units"] if u["kind"] == "fuzz" and name.startswith(os.path.basename(u["src"])[:-4] + "-")), None)
+                if unit is None or (tier == "quick" and unit.get("thorough_only")):
+                    continue
+                exe = build_unit(unit, "fuzz")
+                rc, out = replay_fuzz(exe, path, known_ids)
+                ok = (0,)
+                if rc not in ok and any(replay_fuzz(exe, path, known_ids)[0] in ok for _ in range(2)):
+                    rc = 0
+                sub = prop + ".fuzz." + os.path.basename(unit["src"])[:-4]
+            regress["replayed"] += 1
+            if rc == 0:
+                regress["passed"] += 1
+            elif rc == 3 and name.endswith(".json"):
+                regress["known"] += 1
+            elif rc == 2 and name.endswith(".json"):
+                regress["skipped"] += 1
+            else:
+                violations.append(dict(sub=sub or "?", replay=path, msg="regression record fails again: " + str(out)[-800:]))
+
     # known findings: the fixed probe input of each listed finding is replayed; while it still fails the
     # KNOWN-FINDING line is printed.  Generated cases inside a finding's region are counted in `met`.
     met = {}
@@ -781,7 +827,7 @@ def main():
               coverage=dict(evaluations=evals, distinct_nontrivial=distinct, rule=rule, samples=samples[:40],
                             subchecks=[{k: v for k, v in s.items() if k != "samples"} for s in all_subs],
                             units=units_info, inconclusive_notes=notes, flaky_discarded=discarded,
-                            known_findings_met=met, known_probe_state=probe_state,
+                            known_findings_met=met, known_probe_state=probe_state, regression_replays=regress,
                             exhaustive=bool(all_subs) and all(s.get("exhaustive") is True for s in all_subs)),
               assumptions=spec.get("assumptions", []), wall_s=round(time.time() - t0, 2), violations=len(violations),
               tree=tree_hash())
